@@ -12,6 +12,6 @@ CaseInit == /\ cid \in 1..Len(Cases)
             /\ LET c == Cases[cid]
                IN  cs = IF c.mode = "import"
                         THEN [mode |-> "import", v |-> c.v, px |-> c.px, fmt |-> c.fmt, rin |-> [i \in 1..Len(c.rin) |-> WithM(c.rin[i])]]
-                        ELSE [mode |-> "export", v |-> c.v, px |-> c.px, fmt |-> c.fmt, parts |-> c.parts]
+                        ELSE [mode |-> "export", v |-> c.v, px |-> c.px, fmt |-> c.fmt, parts |-> c.parts, hist |-> c.hist]
             /\ rel = <<>> /\ back = <<>> /\ pc = "start" /\ op = "init"
 =============================================================================
